@@ -123,7 +123,7 @@ def unknown_helpers(fn):
     could not look through (more than one return statement, loops, try blocks): names"""
     from ir import known_names
     known = known_names()
-    out = []
+    out = list(getattr(fn, 'inlined_nontrivial', None) or [])
     u = fn.unit
     for c in fn.calls():
         nd = fn.n(c)
